@@ -1,0 +1,106 @@
+// SPDX-FileCopyrightText: 2026 The Pion community <https://pion.ly>
+// SPDX-License-Identifier: MIT
+
+//go:build verif
+
+package webrtc
+
+// Contracts for C30 (no remote input can crash the process): a safety sweep. The functions
+// below process remote descriptions, candidates and packets; each is checked for the absence
+// of run-time panics that originate in it (index and slice bounds, nil dereference, failed
+// type assertion, division by zero, negative make, explicit panic) for every input, with
+// uncontracted callees treated as arbitrary (heap havoc, unconstrained results).
+// Comments only.
+
+// Input validity (type invariants of what pion/sdp hands over): description and media
+// pointers are not nil, and a description's media list holds no nil entries.
+//@ func trackDetailsForSSRC
+//@ props C30
+//@ func trackDetailsForRID
+//@ props C30
+//@ func filterTrackWithSSRC
+//@ props C30
+//@ func trackDetailsToRTPReceiveParameters
+//@ props C30
+//@ requires trackDetails != nil
+//@ func getRids #safety
+//@ props C30
+//@ requires media != nil
+//@ atcall localfn ridStates assert forall k int :: 0 <= k && k < len(rids) ==> rids[k] != nil
+//@ loop 0 invariant forall k int :: 0 <= k && k < len(rids) ==> rids[k] != nil
+// (the body of its range-over-func loop is the closure getRids$1)
+//@ func getRids$1
+//@ props C30
+//@ requires forall k int :: 0 <= k && k < len(rids) ==> rids[k] != nil
+//@ func getMidValue #safety
+//@ props C30
+//@ requires media != nil
+//@ modifies nothing
+//@ func getPeerDirection #safety
+//@ props C30
+//@ requires media != nil
+//@ modifies nothing
+//@ func extractBundleID
+//@ props C30
+//@ requires desc != nil
+//@ modifies nothing
+//@ func extractFingerprint
+//@ props C30
+//@ requires desc != nil && (forall k int :: 0 <= k && k < len(desc.MediaDescriptions) ==> desc.MediaDescriptions[k] != nil)
+//@ func extractICEDetails
+//@ props C30
+//@ requires log != nil && desc != nil && (forall k int :: 0 <= k && k < len(desc.MediaDescriptions) ==> desc.MediaDescriptions[k] != nil)
+//@ func extractICEDetailsFromMedia
+//@ props C30
+//@ requires log != nil && media != nil && media.MediaDescription != nil
+//@ func selectCandidateMediaSection
+//@ props C30
+//@ ensures ok ==> descr != nil && descr.MediaDescription != nil
+//@ requires sessionDescription != nil && (forall k int :: 0 <= k && k < len(sessionDescription.MediaDescriptions) ==> sessionDescription.MediaDescriptions[k] != nil)
+//@ modifies nothing
+//@ func getByMid
+//@ props C30
+//@ requires desc != nil && desc.parsed != nil && (forall k int :: 0 <= k && k < len(desc.parsed.MediaDescriptions) ==> desc.parsed.MediaDescriptions[k] != nil)
+//@ func haveDataChannel
+//@ props C30
+//@ requires desc != nil && desc.parsed != nil && (forall k int :: 0 <= k && k < len(desc.parsed.MediaDescriptions) ==> desc.parsed.MediaDescriptions[k] != nil)
+//@ func codecsFromMediaDescription
+//@ props C30
+//@ requires mediaDescr != nil
+//@ func rtpExtensionsFromMediaDescription #safety
+//@ props C30
+//@ requires m != nil
+//@ func descriptionIsPlanB #safety
+//@ props C30
+//@ requires log != nil && (desc == nil || desc.parsed == nil || (forall k int :: 0 <= k && k < len(desc.parsed.MediaDescriptions) ==> desc.parsed.MediaDescriptions[k] != nil))
+//@ func descriptionPossiblyPlanB #safety
+//@ props C30
+//@ requires desc == nil || desc.parsed == nil || (forall k int :: 0 <= k && k < len(desc.parsed.MediaDescriptions) ==> desc.parsed.MediaDescriptions[k] != nil)
+//@ func isIceLiteSet #safety
+//@ props C30
+//@ requires desc != nil
+//@ modifies nothing
+//@ func isExtMapAllowMixedSet #safety
+//@ props C30
+//@ requires desc != nil
+//@ modifies nothing
+//@ func hasICETrickleOption
+//@ props C30
+//@ requires desc != nil
+//@ func dtlsRoleFromSDP #safety
+//@ props C30
+//@ requires sessionDescription == nil || (forall k int :: 0 <= k && k < len(sessionDescription.MediaDescriptions) ==> sessionDescription.MediaDescriptions[k] != nil)
+
+// Starting receivers for the tracks of a remote description (runs on the operations queue
+// goroutine: a panic here kills the process). The track list comes from
+// trackDetailsFromSDP, whose entries may have no SSRC at all (simulcast tracks are
+// identified by rids), so nothing here may index ssrcs without a check.
+//@ func (*PeerConnection).startRTPReceivers
+//@ props C30
+//@ requires pcValid(pc) && remoteDesc != nil && pc.sctpTransport != nil
+//@ requires forall k int :: 0 <= k && k < len(currentTransceivers) ==> currentTransceivers[k] != nil
+//@ observe planB := old(pc.configuration.SDPSemantics)
+//@ func (*PeerConnection).AddTransceiverFromKind
+//@ trusted
+//@ props C30
+//@ ensures err == nil ==> ret0 != nil
